@@ -28,8 +28,10 @@ pub fn line_changes_from_diff(
             // Deleted files are ignored.
             continue;
         }
+        // Git prefixes the target path with exactly one "b/": directories named "b" must be kept.
+        let target_file = patched_file.target_file.as_str();
         result.insert(
-            patched_file.target_file.trim_start_matches("b/").into(),
+            target_file.strip_prefix("b/").unwrap_or(target_file).into(),
             line_changes(&patched_file),
         );
     }
